@@ -269,10 +269,23 @@ def run(chk):
                     chk.violation("C08.waitloop", loops[0], K.short(loops[0].test), "not self._buffer and not self._eof", f"{name}(): wait condition changed: may return b'' before EOF or block with data buffered")
     # ---- flow control ---------------------------------------------------------------------------------------------
     np_ = 0
-    for name, m in sr.methods.items():
-        for call, _b in K.exprs(m, "self._protocol.pause_reading()"):
+    # a pause site is the call of pause_reading() or, when that sits unconditionally in a private helper of the class (`_pause_reading()`),
+    # each call of the helper (round 6: the condition belongs to the caller then)
+    def pause_sites(pattern, depth=0):
+        out = []
+        for name, m in sr.methods.items():
+            for call, _b in K.exprs(m, pattern):
+                cl = PC.pc(call)
+                if not cl and depth < 2 and name.startswith("_") and not name.startswith("__"):
+                    inner = pause_sites(f"self.{name}()", depth + 1)
+                    if inner:
+                        out += inner
+                        continue
+                out.append((name, call, cl))
+        return out
+    for name, call, cl in pause_sites("self._protocol.pause_reading()"):
+        if True:
             np_ += 1
-            cl = PC.pc(call)
             if PC.has_lit(cl, "self._size > self._high_water", True) is not None or PC.has_lit(cl, "self._size < self._high_water", False) is not None:
                 chk.ok("C08.flow", call, f"{name}(): transport paused when buffered bytes exceed the high-water mark")
             elif PC.has_lit(cl, "len(self._http_chunk_splits) > self._high_water_chunks", True) is not None or PC.has_lit(cl, "len(self._http_chunk_splits) < self._high_water_chunks", False) is not None:
